@@ -86,13 +86,20 @@ def specCap (c : Case) (act : List Nat) : Nat :=
 /-- `generate_events` resolves the names a fault mentions when the `Simulation` is built: entities
     (`ctx.entities[name]`, a `KeyError` otherwise) and links (`ValueError: No link found`) -/
 def Kind.resolves (c : Case) : Kind → Bool
-  | .crash e | .pause e => e ≤ c.n
-  | .part _ A B => (A ++ B).all (· ≤ c.n)
+  | .crash e | .pause e => e < c.n + c.nets
+  | .part _ A B => (A ++ B).all (· % STRIDE ≤ c.n)
   | .lat a b _ | .loss a b _ => c.links.any fun l => l.a == a && l.b == b
   | .cap .. => true
 
-/-- every scheduled fault of the plan names existing targets (manual calls take entity objects) -/
-def Case.resolves (c : Case) : Bool := c.faults.all fun ft => ft.manual || ft.kind.resolves c
+def Kind.onNetwork : Kind → Bool
+  | .part .. | .lat .. | .loss .. => true
+  | _ => false
+
+/-- every scheduled fault of the plan names existing targets, network faults an existing network
+    (`ctx.networks[network_name]`) (manual calls take entity objects) -/
+def Case.resolves (c : Case) : Bool :=
+  c.faults.all fun ft =>
+    ft.manual || (ft.kind.resolves c && (!ft.kind.onNetwork || decide (ft.net < c.nets)))
 
 /-! ### which windows are active -/
 
@@ -108,7 +115,7 @@ def isPartF (fs : List Fault) (f : Nat) : Bool :=
 def actStep (fs : List Fault) (act : List Nat) : Pop → List Nat
   | .fault _ f true => f :: act
   | .fault _ f false => act.erase f
-  | .healall _ => act.filter fun f => !isPartF fs f
+  | .healall _ k => act.filter fun f => !partOnF fs k f
   | _ => act
 
 /-- the windows that are active after the processed events `tr` (most recently activated first) -/
@@ -124,7 +131,7 @@ def wfFrom (fs : List Fault) (ever act : List Nat) : List Pop → Bool
   | .fault _ f true :: rest => !ever.contains f && wfFrom fs (f :: ever) (f :: act) rest
   | .fault _ f false :: rest =>
     (act.contains f || (isPartF fs f && ever.contains f)) && wfFrom fs ever (act.erase f) rest
-  | .healall _ :: rest => wfFrom fs ever (act.filter fun f => !isPartF fs f) rest
+  | .healall _ k :: rest => wfFrom fs ever (act.filter fun f => !partOnF fs k f) rest
   | _ :: rest => wfFrom fs ever act rest
 
 def WF (fs : List Fault) (tr : List Pop) : Prop := wfFrom fs [] [] tr = true
@@ -248,7 +255,7 @@ def judgeStep (c : Case) (st : JSt) (o : Obs) : JSt × Option String :=
       else if (match ft.r with | some r => decide (r < t) | none => false) && !st.done.contains f then
         (st, some "fault/event-missing")
       else chk { st with canc := f :: st.canc }
-  | .healall _ => chk { st with act := st.act.filter (fun f => !isPartF fs f), healed := true }
+  | .healall _ k => chk { st with act := st.act.filter (fun f => !partOnF fs k f), healed := true }
   | .job _ j cont =>
     let e := (c.job j).ent
     let down := 0 < specDown fs st.act e
@@ -264,8 +271,9 @@ def judgeStep (c : Case) (st : JSt) (o : Obs) : JSt × Option String :=
     if st.emis.contains (j, k) then ({ st with emis := st.emis.erase (j, k) }, none)
     else (st, some "emit/sink-received-unemitted")
   | .nsend t p =>
-    let pr := c.probe p
-    let down := 0 < specDown fs st.act c.n
+    let pr0 := c.probe p
+    let pr : Probe := { a := vid pr0.net pr0.a, b := vid pr0.net pr0.b, net := pr0.net }
+    let down := 0 < specDown fs st.act (c.n + pr0.net)
     let fate := o.toks.headD "-"
     if down then
       if fate != "-" then (st, some "crash/executed-while-down/network") else (st, none)
@@ -285,7 +293,7 @@ def judgeStep (c : Case) (st : JSt) (o : Obs) : JSt × Option String :=
         else chk { st with sent := (p, t, lat) :: st.sent }
       else chk st   -- fractional loss: the fate is a random draw, not judged
   | .nhop t p =>
-    let down := 0 < specDown fs st.act c.n
+    let down := 0 < specDown fs st.act (c.n + (c.probe p).net)
     if down then
       if !(o.toks.isEmpty) then (st, some "crash/executed-while-down/network-process") else (st, none)
     else
@@ -317,9 +325,51 @@ def judgeEnd (c : Case) (st : JSt) (final : Option Settings) : Option String :=
     | some s => judgeSettings c st.act (heldOf st.grants) s st.healed
     | none => none
 
+/-- "processing resumes from the restart time", "in effect exactly while a window is active": a
+    window is `[s, r)` on the time axis.  Its start and its end take effect before every other
+    event of their instant, whichever event was created first: when an event that is not itself a
+    scheduled fault event is processed at time `t`, every scheduled window (whose handle is not
+    cancelled) with `s ≤ t` has been opened and every one with `r ≤ t` has been closed. -/
+def boundaryCheck (c : Case) (st : JSt) (t : Nat) : Option String :=
+  let late (f : Nat) : Option (Kind × Bool) :=
+    match c.faults[f]? with
+    | some ft =>
+      if ft.manual || ft.cancelled || st.canc.contains f then none
+      else if decide (ft.s ≤ t) && !st.ever.contains f then some (ft.kind, true)
+      else
+        match ft.r with
+        | some r => if decide (r ≤ t) && !st.done.contains f then some (ft.kind, false) else none
+        | none => none
+    | none => none
+  match (List.range c.faults.length).findSome? late with
+  | none => none
+  | some (k, start) =>
+    let comp := match k with
+      | .crash _ | .pause _ => "crash"
+      | .part .. => "partition"
+      | .lat .. => "latency"
+      | .loss .. => "loss"
+      | .cap .. => "capacity"
+    some (match k, start with
+      | .crash _, true | .pause _, true => "crash/not-down-from-crash-time"
+      | .crash _, false | .pause _, false => "crash/not-up-from-restart-time"
+      | _, true => comp ++ "/not-in-effect-from-window-start"
+      | _, false => comp ++ "/in-effect-after-window-end")
+
+/-- the event is the start or end of a scheduled fault (not a call made by the workload) -/
+def isSchedFault (c : Case) : Pop → Bool
+  | .fault _ f _ =>
+    match c.faults[f]? with
+    | some ft => !ft.manual
+    | none => true
+  | _ => false
+
 def judgeRun (c : Case) : JSt → Nat → List Obs → Option Settings → Option String
   | st, _, [], final => judgeEnd c st final
   | st, i, o :: rest, final =>
+    match (if isSchedFault c o.pop then none else boundaryCheck c st o.pop.time) with
+    | some sig => some (sig ++ " at-event " ++ toString i)
+    | none =>
     match (judgeStep c st o).2 with
     | some sig => some (sig ++ " at-event " ++ toString i)
     | none => judgeRun c (judgeStep c st o).1 (i + 1) rest final
